@@ -208,22 +208,6 @@ def f1_classifier(case):
     return True
 
 
-def f2_classifier(case):
-    """F-C17-2, as narrow as possible: the reference marks at least one line (`Fortran.hashHeadLines`: a continuation line whose
-    `#` opens the text of a statement that began with lone `&` lines), implementation and reference count the same lines, every
-    directive group of the reference is a directive node of the implementation, and every OTHER directive node of the
-    implementation starts with a marked line."""
-    marked = set(case.get("hash") or [])
-    impl, spec = case.get("impl_nodes") or [], case.get("spec_nodes") or []
-    if not marked or [x for n in impl for x in n[1]] != [x for n in spec for x in n[1]]:
-        return False
-    spec_dirs = [n[1] for n in spec if n[0]]
-    impl_dirs = [n[1] for n in impl if n[0]]
-    if any(d not in impl_dirs for d in spec_dirs):
-        return False
-    return all(d in spec_dirs or (d and d[0] in marked) for d in impl_dirs)
-
-
 def structural_checks(text, parsed):
     """invariants of the implementation's own output, for every text"""
     bad = []
@@ -300,13 +284,10 @@ def check_text(ctx, drv, impl, text, origin, ext=".f90", want_wf=False, reply=No
             c2 = dict(case, diff=diff, impl_counted=got, spec_counted=spec, k_lines=reply["k"])
             ctx.classify(c2, f"counted lines {got} != reference {spec} (differ on {diff})", [("F-C17-1", f1_classifier)])
         elif "nodes" in par and not reply["k"] and reply.get("spec_nodes") is not None:
-            # grouping of the counted lines into nodes (C17.nodes_eq_ref: proved for the model outside F-C17-1 / F-C17-2)
+            # grouping of the counted lines into nodes (C17.nodes_eq_ref: proved for the model outside F-C17-1)
             groups = [[bool(n[0]), n[1]] for n in par["nodes"]]
-            if reply.get("hash"):
-                ctx.dist["has_F-C17-2_line"] += 1
             if groups != reply["spec_nodes"]:
-                c3 = dict(case, hash=reply.get("hash"), impl_nodes=groups, spec_nodes=reply["spec_nodes"])
-                ctx.classify(c3, f"nodes {groups} != groups of the reference {reply['spec_nodes']}", [("F-C17-2", f2_classifier)])
+                ctx.violation(f"nodes {groups} != groups of the reference {reply['spec_nodes']}", case)
             elif any(n[2] < 1 for n in par["nodes"]):
                 ctx.violation(f"a node without lines: {par['nodes']}", case)
         # Lean spec vs its independent twin
@@ -806,7 +787,7 @@ def run(ctx, drv):
         # --- the recorded finding's witnesses
         check_text(ctx, drv, impl, "x = 'a&\n& &\n&b'\n", "witness")
         check_text(ctx, drv, impl, "x = 'a&\n   & &\n&b'\n", "witness")
-        # F-C17-2 (a continuation line whose `#` opens the text of a statement that began with lone `&` lines) and its neighbours
+        # the repaired F-C17-2 (a continuation line whose `#` opens the text of a statement that began with lone `&` lines) and its neighbours
         for t in ["x = 1\n&\n&#define A\ny = 2\n", "&\n\n ! c\n& &\n  & #undef A &\n  & 1\nz = 3\n", "x = &\n&#define A\ny = 2\n",
                   "&\n&x = 1\n#define A\n", "& ! c\n  & !$omp x\n  & #3\n"]:
             check_text(ctx, drv, impl, t, "witness")
